@@ -117,7 +117,7 @@ CLAIMS["C19"] = (
 
 CLAIMS["C04"] = (
     "Rocq theorems over all object sets / route lists / minion lists (routes attached = referenced, existing, reference-checked routes; minions = stored minions of the host; each path served by exactly the least-claimant minion; composition a function of the object set) + the declarative composition evaluated in Rocq on the implementation's GetResources() after every event",
-    "Machine-checked proof (no axioms) that the route list of a VirtualServer is exactly the referenced, existing routes passing the per-reference check (whose meaning is proved), that the minions rendered with a master are exactly the stored minions of its host, that a minion's ValidPaths mark for a path is true iff it is the least claimant of that path among them (any number of minions and paths, a minion may list a path any number of times; K1) and a minion that loses a path carries a child warning, and that composition depends only on the current object set; only-the-owner-composes and the end-to-end connection to GetResources are decided by the declarative specification evaluated on the real resources of every generated history. One genuine defect (F44) repaired; F12 (route attached twice) is a known finding.",
+    "Machine-checked proof (no axioms) that the route list of a VirtualServer is exactly the referenced, existing routes passing the per-reference check (whose meaning is proved), that the minions rendered with a master are exactly the stored minions of its host, that a minion's ValidPaths mark for a path is true iff it is the least claimant of that path among them (any number of minions and paths, a minion may list a path any number of times; K1) and a minion that loses a path carries a child warning, that a minion or a route is only ever attached to the resource that owns its host (C04_minion_attached_to_host_owner, C04_route_attached_to_host_owner, for any object set the validators accept), and that composition depends only on the current object set; the end-to-end connection to GetResources and the rendering projection are decided by the declarative specification evaluated on the real resources of every generated history. One genuine defect (F44) repaired; F12 (route attached twice) is a known finding.",
     ARB_NOTE + " The full VirtualServerRoute validator is an oracle; its per-reference part is modelled. Rendering projection: every active master is rendered through the real createMergeableIngresses + generateNginxCfgForMergeableIngresses and its (path, minion) locations are compared in Rocq with the declared ones. F12 and F44 repaired (C04_route_attached_once).", "DESIGN.md 7 C04")
 CLAIMS["C08"] = (
     "Rocq theorems over unbounded policy-reference lists and all dependency states of an executable model of generatePolicies / add*Config / getPolicies / policy inheritance / generateSSLConfig / addSSLConfig / Ingress JWT and "
